@@ -73,10 +73,13 @@ SHORT = {
 SHORT3 = {'C01-r3-1': 'G eigenvalue clamp moved into the non-prediv branch', 'C01-r3-2': '`symmetric=` passed to the eigenvector broadcast', 'C01-r3-3': 'step counter restored last in `load_state_dict`', 'C02-r3-1': '`reduce_g_factor` de-indented out of the per-layer loop', 'C02-r3-2': 'as C01-r3-2', 'C02-r3-3': 'bucketed callback: refill, `elif average`', 'C03-r3-1': 'G-inverse broadcast rooted at the A inverse worker', 'C03-r3-2': 'inverse broadcast rooted at `src_grad_worker` after a load', 'C03-r3-3': 'stage group kept when `stage == local_rank`', 'C04-r3-1': '`F.pad` amounts in (H,H,W,W) order', 'C04-r3-2': 'G batch divided by `_a_count`', 'C04-r3-3': 'unbucketed average divides by the world size', 'C05-r3-1': 'step counter bumped before the clip scale is computed', 'C05-r3-2': 'backward hook gated on the inverse interval', 'C05-r3-3': 'as C04-r3-2', 'C06-r3-1': 'receiver groups (rows) handed to the greedy assignment', 'C06-r3-2': '`int()` for `round()` in the equal-groups check', 'C06-r3-3': '`is not` for `<` in `broadcast_gradients`', 'C07-r3-1': 'step counter bumped before `_compute_grad_scale`', 'C07-r3-2': '`.contiguous()` for `.clone()` before the bias broadcast', 'C07-r3-3': 'receiver uses `module.get_grad()` as receive buffer', 'C08-r3-1': 'lost negation in `group_ranks`', 'C08-r3-2': 'bucketed average divides by the world size', 'C08-r3-3': '`break` for `continue` in flush', 'C09-r3-1': 'step counter restored last', 'C09-r3-2': '`callable(self._damping)` guards the factor_decay entry', 'C09-r3-3': 'layer state returns the raw `_a_factor` slot', 'C10-r3-1': '`g /= spatial_size`', 'C10-r3-2': '`g /= self.grad_scaler()`', 'C10-r3-3': 'class-name skip test on the lower-cased name', 'C11-r3-1': 'bias broadcast issued on the un-preconditioned partition', 'C11-r3-2': 'replicated G reduced over the model-parallel group', 'C11-r3-3': 'bucketed average divides by the world size', 'C12-r3-1': '`new_group` moved under the own-stage test', 'C12-r3-2': 'DP group looked up for the local rank in `factor_worker`', 'C12-r3-3': '`{self.local_rank}` for the MP peers in `is_grad_worker`', 'C13-r3-1': 'A reduced over the receiver group in the forward hook', 'C13-r3-2': 'eigen layer drops `symmetry_aware` on the way to the base', 'C13-r3-3': '`g_factor.element_size()` in the inverse byte count', 'C14-r3-1': 'square check `>` for `!=` in broadcast', 'C14-r3-2': '`maximum(dst, dst.T)` for the mirror scatter', 'C14-r3-3': 'flat gather through `stride(0)`', 'C15-r3-1': 'padding guard `*` for `+`', 'C15-r3-2': 'spatial divisor `size(1)*size(1)`', 'C15-r3-3': '`a.view(-1, a.size(1))` in the linear helper', 'C16-r3-1': '`requires_grad(model)` for `requires_grad(module)`', 'C16-r3-2': '`type(module) in` for `isinstance`', 'C16-r3-3': 'as C10-r3-3', 'C17-r3-1': 'group load by `max` instead of `sum`', 'C17-r3-2': 'as C06-r3-1', 'C17-r3-3': 'GPT load table sized by the DP peers', 'C18-r3-1': '`layers is None` exit before the directory branch', 'C18-r3-2': 'directory load on the inverse worker only', 'C18-r3-3': 'directory save by `src_grad_worker`', 'C19-r3-1': 'inv_update_steps block guarded by the factor_update_steps lambda', 'C19-r3-2': '`elif` chains the lr refusal to the kl_clip one', 'C19-r3-3': 'cap rounded to two decimals', 'C20-r3-1': 'unguarded `times[len(times) - max_history:]`', 'C20-r3-2': '`setdefault(name, [t]).append(t)`', 'C20-r3-3': '`log_trace` drops `max_history`'}
 
 
+SHORT4 = {'C01-r4-C011': '`pinv(..., hermitian=True)` for `linalg.inv` of the damped factor', 'C01-r4-C012': '`tensor.clone()` for `tensor.contiguous()` in `broadcast` (receiver never sees the data)', 'C02-r4-C023': '`symmetric=` passed to the eigenvector broadcast', 'C02-r4-C024': 'receiver uses `module.get_grad()` itself as receive buffer', 'C03-r4-C031': '`load_state_dict` iterates `keys() & keys()` (hash order of str) around collectives', 'C03-r4-C032': 'stage groups created by a generator consumed with `next(...)`', 'C04-r4-C041': 'reductions deferred into lambdas that capture the loop variable', 'C04-r4-C042': 'identity by `torch.eye(n, device=…)` (default dtype)', 'C05-r4-C051': '`interval *= int(factor)` for `int(interval * factor)` in the scheduler', 'C05-r4-C052': '`state_dict.get(key) or current` (a saved 0 / None is lost)', 'C06-r4-C061': 'layers to place taken from a set comprehension', 'C06-r4-C062': '`isclose(grad_workers - round(grad_workers), 0)` (relative tolerance against 0)', 'C07-r4-C071': 'clip sum accumulated as a 0-dim tensor in the gradient dtype', 'C07-r4-C072': '`scale = scale or 1.0`; multiply only when `!= 1.0`', 'C08-r4-C081': 'chained comparison `size <= cap < size + n` for the capacity test', 'C08-r4-C082': 'bucket tensors converted to the dtype of the first one', 'C09-r4-C091': 'as C05-r4-C052', 'C09-r4-C092': 'loaded factors placed with `tensor.to(weight)` (dtype follows the parameter)', 'C10-r4-C101': '`.to(dtype, memory_format=contiguous_format)` for `.contiguous()` in `set_grad`', 'C10-r4-C102': "skip patterns matched against `name.lstrip('module.')`", 'C11-r4-C013': '`all_gather_into_tensor` + view/movedim/flatten for gather + `cat(dim)`', 'C11-r4-C014': 'one dense copy viewed as `(P, *chunk)` and unbound (splits dim 0 only)', 'C12-r4-C021': 'bounds test `group[0] <= rank <= group[-1]` in `get_group_with_rank`', 'C12-r4-C022': 'as C03-r4-C032', 'C13-r4-C033': 'two guarded terms merged into one conditional expression (precedence)', 'C13-r4-C034': '`memory_usage` reads the raw slots and counts only tensors', 'C14-r4-C043': 'EAFP: `get_triu()` ValueError translated, after the early exits', 'C14-r4-C044': '`U + Uᵀ - diag(U)` for the mirror scatter', 'C15-r4-C053': 'pad amounts `(p1, p0) * 2`', 'C15-r4-C054': 'pointwise fast path through `permute(0, 2, 3, 1)` ignoring the stride', 'C16-r4-C063': '`next(params, None)` consumes the first parameter before `all()`', 'C16-r4-C064': "one alternation `'|'.join(patterns)` searched", 'C17-r4-C073': 'running group-load table updated once per layer', 'C17-r4-C074': '`_argmin` by `math.isclose` to the minimum', 'C18-r4-C083': '`found_name.endswith(name)` for `==`', 'C18-r4-C084': 'directory load split into read loop / decompose loop over recorded names', 'C19-r4-C093': '`inspect.isfunction` for `callable`', 'C19-r4-C094': '`nonlocal` running maximum in the averaging closure', 'C20-r4-C103': "`sync=sync` forwarded into the traced function's keyword arguments", 'C20-r4-C104': 'averages computed after the loop from `len(times)` of the last function'}
+
+
 def main() -> None:
     res = json.load(open(sys.argv[1]))
     rnd = sys.argv[2] if len(sys.argv) > 2 else 'r2'
-    table = SHORT if rnd == 'r2' else SHORT3
+    table = {'r2': SHORT, 'r3': SHORT3, 'r4': SHORT4}[rnd]
     by = {r['id'][5:]: r for r in res if r['id'].startswith('seed-') and f'-{rnd}-' in r['id']}
     for k in sorted(table):
         r = by.get(k)
